@@ -6,43 +6,46 @@ Import ListNotations.
 Open Scope Z_scope.
 
 (* ---- DFXP read ------------------------------------------------------------------------------------------- *)
-(* a div's language: its own xml:lang, else the document's, else the configured default (= the specification) *)
-Theorem C14_dfxp_lang_of_div : forall own tt default,
-  div_lang own tt default = match own with Some l => l | None => match tt with Some l => l | None => default end end
-  /\ div_lang own tt default = effective_lang own tt default.
-Proof. exact dfxp_lang_of_div. Qed.
-Print Assumptions C14_dfxp_lang_of_div.
-(* languages are listed in order of first appearance, for every document *)
-Theorem C14_dfxp_read_order : forall default doc,
-  languages (dfxp_read default doc) = first_appearance (effs default doc).
-Proof. exact dfxp_read_order. Qed.
-Print Assumptions C14_dfxp_read_order.
-Theorem C14_first_appearance_spec : forall ls,
-  NoDup (first_appearance ls) /\ (forall x, In x (first_appearance ls) <-> In x ls).
-Proof. exact first_appearance_spec. Qed.
-Print Assumptions C14_first_appearance_spec.
-(* with distinct languages each div's cue list is returned intact under its language, in document order *)
-Theorem C14_dfxp_read_distinct : forall default doc, NoDup (effs default doc) ->
-  dfxp_read default doc = map (fun dv => (div_lang (fst dv) (d_tt doc) default, snd dv)) (d_divs doc).
-Proof. exact dfxp_read_distinct. Qed.
-Print Assumptions C14_dfxp_read_distinct.
+(* order of first appearance, pinned down: the model's fold is the specification's `uniq` (keep first occurrences) *)
+Theorem C14_first_appearance_uniq : forall ls, first_appearance ls = uniq ls.
+Proof. exact first_appearance_uniq. Qed.
+Print Assumptions C14_first_appearance_uniq.
+(* EVERY document (repeated languages, nested divs, divs without paragraphs): the reader model is the grouping by
+   effective language - languages in order of first appearance, a language met again continues its list, no cue is
+   lost and none is listed twice - and therefore meets the oracle *)
+Theorem C14_dfxp_read_groups : forall default doc,
+  dfxp_read default doc
+  = spec_group (map (fun dv => (effective_lang (fst dv) (d_tt doc) default, snd dv)) (d_divs doc)).
+Proof. exact dfxp_read_groups. Qed.
+Print Assumptions C14_dfxp_read_groups.
 Theorem C14_dfxp_read_meets_oracle : forall default tt divs,
-  dom_dfxp_read default tt divs = true ->
   ok_dfxp_read default tt divs (dfxp_read default (mkDfxp tt divs)) = true.
 Proof. exact dfxp_read_meets_oracle. Qed.
 Print Assumptions C14_dfxp_read_meets_oracle.
 
+(* the <body> as a TREE of divs and paragraphs (nested divs, a div without xml:lang inherits the nearest enclosing
+   div's, every <p> under its nearest div): the tree read is the same grouping over the tree's segments *)
+Theorem C14_dfxp_tree_read_groups : forall default tt nodes,
+  dfxp_read_tree default tt nodes
+  = spec_group (map (fun dv => (effective_lang (fst dv) tt default, snd dv)) (flatten_body nodes)).
+Proof. exact dfxp_read_tree_groups. Qed.
+Print Assumptions C14_dfxp_tree_read_groups.
+Theorem C14_dfxp_tree_read_meets_oracle : forall default tt nodes,
+  ok_dfxp_read default tt (flatten_body nodes) (dfxp_read_tree default tt nodes) = true.
+Proof. exact dfxp_read_tree_meets_oracle. Qed.
+Print Assumptions C14_dfxp_tree_read_meets_oracle.
+
 (* ---- DFXP write: order, force=, and back again --------------------------------------------------------------- *)
-Theorem C14_dfxp_write_order : forall force cs, mem force (languages cs) = false ->
-  d_divs (dfxp_write force cs) = map (fun l => (Some l, get_captions cs l)) (languages cs).
-Proof. exact dfxp_write_order. Qed.
-Print Assumptions C14_dfxp_write_order.
-Theorem C14_force_selects : forall force cs, mem force (languages cs) = true ->
-  dfxp_write force cs = mkDfxp (Some force) [(Some force, get_captions cs force)]
-  /\ (force <> [] ->
-      legacy_write force cs = Ok (mkDfxp (Some dfxp_default_language) [(Some force, get_captions cs force)])).
-Proof. exact force_selects. Qed.
-Print Assumptions C14_force_selects.
+(* the writer models meet the oracle: divs are a sub-sequence of the set with identical cue lists; a present force
+   selects exactly that language; an empty force writes every language (legacy: an absent one the last language) *)
+Theorem C14_dfxp_write_meets_oracle : forall force cs, NoDup (languages cs) ->
+  ok_dfxp_write force cs (doc_sset (dfxp_write force cs)) = true.
+Proof. exact dfxp_write_meets_oracle. Qed.
+Print Assumptions C14_dfxp_write_meets_oracle.
+Theorem C14_legacy_write_meets_oracle : forall force cs d, NoDup (languages cs) -> mem [] (languages cs) = false ->
+  legacy_write force cs = Ok d -> ok_dfxp_write force cs (doc_sset d) = true.
+Proof. exact legacy_write_meets_oracle. Qed.
+Print Assumptions C14_legacy_write_meets_oracle.
 Theorem C14_dfxp_roundtrip_langs : forall default cs, NoDup (languages cs) -> mem [] (languages cs) = false ->
   dfxp_read default (dfxp_write [] cs) = cs.
 Proof. exact dfxp_roundtrip_langs. Qed.
@@ -53,51 +56,32 @@ Proof. exact dfxp_roundtrip_force. Qed.
 Print Assumptions C14_dfxp_roundtrip_force.
 
 (* ---- SAMI read --------------------------------------------------------------------------------------------- *)
-Theorem C14_sami_read_order_first_appearance : forall default styles ps,
-  languages (sami_read default styles ps) = first_appearance (map (tag_of default styles) ps)
-  /\ NoDup (languages (sami_read default styles ps)).
-Proof. exact sami_read_order. Qed.
-Print Assumptions C14_sami_read_order_first_appearance.
-(* the cue list of a language = the non-blank paragraphs resolved to exactly that language, in document order *)
-Theorem C14_sami_read_lists : forall default styles ps l,
-  In l (languages (sami_read default styles ps)) ->
-  get_captions (sami_read default styles ps) l
-  = map (fun p => (sp_start p * 1000, sp_text p))
-        (filter (fun p => str_eqb (tag_of default styles p) l && negb (is_blank_text (sp_text p))) ps).
-Proof. exact sami_read_lists. Qed.
-Print Assumptions C14_sami_read_lists.
+(* EVERY document: the reader model is the grouping of the paragraphs by their language; a blank paragraph counts
+   for the order of first appearance of its language but gives no cue - and therefore meets the oracle *)
+Theorem C14_sami_read_groups : forall default styles ps,
+  sami_read default styles ps
+  = spec_group (map (fun t : str * scue * bool => (fst (fst t), if snd t then @nil scue else [snd (fst t)]))
+                    (sami_tagged default styles ps)).
+Proof. exact sami_read_groups. Qed.
+Print Assumptions C14_sami_read_groups.
+Theorem C14_sami_read_meets_oracle : forall default styles ps,
+  ok_sami_read (sami_tagged default styles ps) (sami_read default styles ps) = true.
+Proof. exact sami_read_meets_oracle. Qed.
+Print Assumptions C14_sami_read_meets_oracle.
 (* partition: over all languages listed, every non-blank paragraph is counted exactly once *)
 Theorem C14_sami_read_partition : forall default styles ps,
   fold_right (fun lc n => (length (snd lc) + n)%nat) 0%nat (sami_read default styles ps)
   = length (filter (fun p => negb (is_blank_text (sp_text p))) ps).
 Proof. exact sami_read_partition. Qed.
 Print Assumptions C14_sami_read_partition.
-(* the selection by language prefix (p[lang|=l]) of the unrepaired reader copies a cue into another language *)
-Theorem C14_sami_prefix_selection_refuted :
-  exists default styles ps l1 l2 c,
-    l1 <> l2 /\ In c (get_captions (sami_read_prefix default styles ps) l1)
-             /\ In c (get_captions (sami_read_prefix default styles ps) l2)
-             /\ ~ In c (get_captions (sami_read default styles ps) l1).
-Proof. exact sami_prefix_selection_refuted. Qed.
-Print Assumptions C14_sami_prefix_selection_refuted.
-
-(* how a <P> gets its language: an inline lang attribute decides (first two characters); a class decides only if
-   it declares a language - a layout-only or unknown class does NOT end the lookup, later attributes are consulted *)
+(* how a <P> gets its language in the MODEL (one unfolding step each; they document find_lang, the oracle's tags are
+   the generator's): a class without a language does not end the lookup *)
 Theorem C14_find_lang_class_falls_through : forall name value rest styles,
   str_eqb (lower name) (lit "lang") = false -> str_eqb (lower name) (lit "class") = true ->
   (dict_get (lower value) styles = None \/ dict_get (lower value) styles = Some None) ->
   find_lang ((name, value) :: rest) styles = find_lang rest styles.
 Proof. exact find_lang_class_falls_through. Qed.
 Print Assumptions C14_find_lang_class_falls_through.
-Theorem C14_find_lang_inline : forall name value rest styles,
-  str_eqb (lower name) (lit "lang") = true -> find_lang ((name, value) :: rest) styles = Some (firstn 2 value).
-Proof. exact find_lang_inline. Qed.
-Print Assumptions C14_find_lang_inline.
-Theorem C14_find_lang_class_with_lang : forall name value l rest styles,
-  str_eqb (lower name) (lit "lang") = false -> str_eqb (lower name) (lit "class") = true ->
-  dict_get (lower value) styles = Some (Some l) -> find_lang ((name, value) :: rest) styles = Some l.
-Proof. exact find_lang_class_with_lang. Qed.
-Print Assumptions C14_find_lang_class_with_lang.
 
 (* ---- SAMI write ----------------------------------------------------------------------------------------------- *)
 (* every paragraph goes to the end of a block with its own start or into a new block with its start;
@@ -143,10 +127,28 @@ Theorem C14_sami_languages_never_mix : forall cs, NoDup (map fst cs) ->
 Proof. exact sami_languages_never_mix. Qed.
 Print Assumptions C14_sami_languages_never_mix.
 
+(* the writer model meets the WHOLE oracle ok_sami_body: body sorted, every language's non-blank paragraphs = its
+   cues at start // 1000 in order, no paragraph of a foreign class *)
+Theorem C14_sami_write_meets_oracle : forall cs, dom_sami_write cs -> ok_sami_body (as_sset cs) (sami_write cs) = true.
+Proof. exact sami_write_meets_oracle. Qed.
+Print Assumptions C14_sami_write_meets_oracle.
+
+(* ---- SAMI write: the class layer ---------------------------------------------------------------------------- *)
+(* whatever class a caption carries, the class the (repaired) writer puts on its paragraph resolves - through the
+   stylesheet the writer emits, later blocks winning - to the language the cue is listed under.  Hypothesis: a style
+   NAMED like a language of the set does not declare a different language (two blocks of one name would disagree) *)
+Theorem C14_class_resolves : forall styles langs l cap_class,
+  NoDup (map fst styles) -> NoDup langs -> In l langs ->
+  (forall l0 l', In l0 langs -> dict_get l0 styles = Some (Some l') -> l' = l0) ->
+  resolve_class (p_class l cap_class styles) (sheet_langs styles langs) = Some l.
+Proof. exact class_resolves. Qed.
+Print Assumptions C14_class_resolves.
+
 (* ---- language pick ------------------------------------------------------------------------------------------- *)
-Theorem C14_vtt_lang_option : forall l cs c, NoDup (languages cs) -> In (l, c) cs -> vtt_select (Some l) cs = Ok c.
-Proof. exact vtt_lang_option. Qed.
-Print Assumptions C14_vtt_lang_option.
+Theorem C14_vtt_select_meets_oracle : forall lang cs obs, NoDup (languages cs) -> vtt_select lang cs = Ok obs ->
+  ok_pick lang cs obs = true.
+Proof. exact vtt_select_meets_oracle. Qed.
+Print Assumptions C14_vtt_select_meets_oracle.
 
 (* ---- non-vacuity ------------------------------------------------------------------------------------------------ *)
 Example C14_example_dfxp :
@@ -174,3 +176,47 @@ Example C14_example_sami_write :
                    (2000, [(lit "en", lit "&nbsp;")]); (5000, [(lit "en", lit "a2"); (lit "fr", lit "f2")])] /\
   cpars (lit "fr") (sami_write cs) = [(500, lit "f1"); (1500, lit "&nbsp;"); (5000, lit "f2")].
 Proof. vm_compute. repeat split; intros; discriminate. Qed.
+
+(* the hypotheses of the theorems above are met by ordinary inputs *)
+Definition ex_cs : list (str * list wcue) :=
+  [(lit "en", [mkWcue 1000000 2000000 (lit "a1"); mkWcue 5000000 6000000 (lit "a2")]);
+   (lit "fr", [mkWcue 500000 1500000 (lit "f1"); mkWcue 5000000 5500000 (lit "f2")])].
+Example C14_example_dom_sami_write : dom_sami_write ex_cs /\ ok_sami_body (as_sset ex_cs) (sami_write ex_cs) = true.
+Proof.
+  split; [|vm_compute; reflexivity]. split; [|split].
+  - repeat constructor; cbn; intros H; repeat (destruct H as [H|H]; [discriminate|]); exact H.
+  - intros l caps [H|[H|[]]]; inversion H; subst; vm_compute; repeat split; intros; discriminate.
+  - intros l caps c [H|[H|[]]]; inversion H; subst; intros [<-|[<-|[]]]; vm_compute; reflexivity.
+Qed.
+Definition ex_set : sset := [(lit "en", [(1000000, lit "a")]); (lit "fr", [(2000000, lit "b")]); (lit "de", [])].
+Example C14_example_write_hyps :
+  NoDup (languages ex_set) /\ mem [] (languages ex_set) = false
+  /\ ok_dfxp_write (lit "fr") ex_set (doc_sset (dfxp_write (lit "fr") ex_set)) = true
+  /\ (exists d, legacy_write (lit "xx") ex_set = Ok d /\ doc_sset d = [(lit "de", [])])
+  /\ vtt_select (Some (lit "fr")) ex_set = Ok [(2000000, lit "b")].
+Proof.
+  split; [|split; [reflexivity|split; [vm_compute; reflexivity|split; [eexists; split; vm_compute; reflexivity|vm_compute; reflexivity]]]].
+  repeat constructor; cbn; intros H; repeat (destruct H as [H|H]; [discriminate|]); exact H.
+Qed.
+(* the two audit shapes: a class declaring fr next to the language class, and a caption carrying the class of ANOTHER
+   language.  The old writer kept `encc` on the second (it resolves to en); the repaired choice resolves to fr *)
+Definition ex_styles : list (str * option str) :=
+  [(lit "frcc", Some (lit "fr")); (lit "encc", Some (lit "en")); (lit "narrow", None)].
+Example C14_example_class_layer :
+  p_class (lit "fr") (Some (lit "encc")) ex_styles = lit "fr"
+  /\ p_class (lit "fr") (Some (lit "frcc")) ex_styles = lit "frcc"
+  /\ sheet_langs ex_styles [lit "en"; lit "fr"]
+     = [(lit "frcc", lit "fr"); (lit "encc", lit "en"); (lit "en", lit "en"); (lit "fr", lit "fr")]
+  /\ resolve_class (lit "encc") (sheet_langs ex_styles [lit "en"; lit "fr"]) = Some (lit "en")
+  /\ (forall l0 l', In l0 [lit "en"; lit "fr"] -> dict_get l0 ex_styles = Some (Some l') -> l' = l0).
+Proof.
+  repeat (split; [vm_compute; reflexivity|]).
+  intros l0 l' [<-|[<-|[]]] H; vm_compute in H; discriminate.
+Qed.
+(* nested divs: fr { a, (no lang){ b }, c }, en { d }, fr { e }: the inner div inherits fr, document order is kept *)
+Example C14_example_tree :
+  dfxp_read_tree (lit "und") (Some (lit "es"))
+    [DDiv (Some (lit "fr")) [DP (1, lit "a"); DDiv None [DP (2, lit "b")]; DP (3, lit "c")];
+     DDiv None [DP (4, lit "d")]; DDiv (Some (lit "fr")) [DP (5, lit "e")]; DP (6, lit "outside")]
+  = [(lit "fr", [(1, lit "a"); (2, lit "b"); (3, lit "c"); (5, lit "e")]); (lit "es", [(4, lit "d")])].
+Proof. vm_compute. reflexivity. Qed.
